@@ -594,6 +594,29 @@ def configs():
     C["licref-text-binary"] = (dict(lr_user, **{"LICENSES/LicenseRef-odd.txt": bytes(range(256)) * 4}), [], None)
     C["licref-text-empty"] = (dict(lr_user, **{"LICENSES/LicenseRef-odd.txt": b""}), [], None)
     C["license-text-latin1"] = ({"LICENSES/ISC.txt": "caf\xe9 ISC\n".encode("latin-1")}, [], None)
+    # very long lines in covered files: a licence tag whose identifier is longer than any file name may be
+    C["long-licenseref"] = ({"long.py": "# SPDX-FileCopyrightText: 2020 J\n# SPDX-License-Identifier: LicenseRef-" + "a" * 300 + "\n"}, [], None)
+    C["long-identifier"] = ({"long.py": "# SPDX-FileCopyrightText: 2020 J\n# SPDX-License-Identifier: " + "Abc-" * 200 + "1.0\n"}, [], None)
+    C["long-licenseref-in-toml"] = ({TOML_REL: CLI_TOML_OK.replace('"MIT"', '"LicenseRef-' + "b" * 300 + '"')}, [(TOML_REL, ok_doc)], None)
+    # a Git repository (configurations whose name begins with "git-": `git init` after the tree is written) with files the
+    # VCS ignores or does not know: whatever *bytes their names* are made of — the tool asks Git for the list of ignored
+    # paths and never looks at these files otherwise, so no command may end differently because of them
+    ign = {".gitignore": "*.ign\nbuild/\n"}
+    C["git-plain"] = (dict(ign, **{"x.ign": "x\n", "build/out.o": b"\x00"}), [], None)
+    C["git-ignored-name-not-utf8"] = (dict(ign, **{"caf\udce9.ign": "x\n"}), [], None)
+    C["git-ignored-name-latin1-and-utf8"] = (dict(ign, **{"r\udce9sum\udce9.ign": "x\n", "résumé.ign": "x\n"}), [], None)
+    C["git-ignored-dir-content-not-utf8"] = (dict(ign, **{"build/\udcff\udcfe/o\udc80.o": b"\x00"}), [], None)
+    C["git-ignored-dir-name-not-utf8"] = ({".gitignore": "b*/\n", "b\udce9ta/out.o": b"\x00"}, [], None)
+    C["git-ignored-name-control-characters"] = (dict(ign, **{"new\nline.ign": "x\n", "tab\there.ign": "x\n", 'q"uote\\.ign': "x\n"}), [], None)
+    C["git-ignored-name-long"] = (dict(ign, **{"n" * 250 + ".ign": "x\n"}), [], None)
+    # .gitmodules is a file of the project like any other: whatever it holds, the commands end normally
+    sub = '[submodule "lib"]\n'
+    for name, text in (("ok", sub + "\tpath = lib\n\turl = https://example.com/lib.git\n"), ("no-path", sub + "\turl = u\n"),
+                       ("empty-path", sub + "\tpath = \n"), ("path-without-value", sub + "\tpath\n"), ("path-twice", sub + "\tpath = a\n\tpath = b\n"),
+                       ("path-not-utf8", sub.encode() + b"\tpath = caf\xe9\n"), ("path-with-newline", sub + '\tpath = "a\\nb"\n'),
+                       ("garbage", "[[[ not a configuration file\n"), ("nul", sub.encode() + b"\tpath = a\x00b\n"), ("empty", ""),
+                       ("other-key-named-path", '[other "x.path"]\n\tfoo.path\n[submodule "a"]\n\tzz.path = 1\n')):
+        C["git-gitmodules-" + name] = ({".gitmodules": text, "lib/x.py": HDR}, [], None)
     return C
 
 
@@ -637,7 +660,8 @@ class CliStream(Stream):
     exhaustive = True
     rule = ("%d project configurations (no / valid / syntactically broken / undecodable / NUL / 1 MB / 3000-deep / wrongly shaped / "
             "unparseable-expression REUSE.toml, nested REUSE.toml, the same for .reuse/dep5, dep5 + REUSE.toml conflicts, duplicate licence "
-            "files) x %d sub-commands of the real CLI (CliRunner) over a tree with Latin-1, NUL, binary and bad-expression files: "
+            "files, licence texts with arbitrary bytes, Git repositories with ignored files / directories whose names are not UTF-8, hold "
+            "control characters or are 250 bytes long, Git repositories with well-formed and malformed .gitmodules files) x %d sub-commands of the real CLI (CliRunner) over a tree with Latin-1, NUL, binary and bad-expression files: "
             "observed = loaded | exit:2 + configuration files named | traceback:<Class>, compared with the model's loadProject/clickEnd "
             "fed the generator's description of each file; oracle from the property text" % (len(configs()), len(COMMANDS)))
 
@@ -662,6 +686,9 @@ class CliStream(Stream):
             tree = dict(BASE_TREE)
             tree.update(files)
             cli.write_tree(root, tree)
+            if case["config"].startswith("git-"):
+                import subprocess
+                subprocess.run(["git", "init", "-q"], cwd=root, check=True, capture_output=True)
             code, out, exc = cli.run_cli(["--no-multiprocessing"] + COMMANDS[case["cmd"]], root)
             if exc is not None:
                 return "traceback:" + ("OSError" if isinstance(exc, OSError) else type(exc).__name__)
@@ -996,6 +1023,96 @@ class AnnotateStream(Stream):
 
     def nontrivial(self, case, impl_out):
         return (tuple(sorted(set(case["kinds"]))), impl_out.split(" ")[-1])
+
+
+# --------------------------------------------------------------------------
+# stream 6b: the templates below .reuse/templates/ are project files too -- oracle only
+
+OK_TEMPLATE = ("{% for c in copyright_lines %}\n{{ c }}\n{% endfor %}\n{% for c in contributor_lines %}\nSPDX-FileContributor: {{ c }}\n{% endfor %}\n\n"
+               "{% for e in spdx_expressions %}\nSPDX-License-Identifier: {{ e }}\n{% endfor %}\n")
+# kind -> (bytes of NAME.jinja2, usable?)   usable = a header with the requested information can be made from it (ground truth by construction)
+TEMPLATE_KINDS = {
+    "ok": (OK_TEMPLATE, True),
+    "ok-with-text": ("This file is part of X.\n\n" + OK_TEMPLATE + "\nEnd of header.\n", True),
+    "ok-crlf": (OK_TEMPLATE.replace("\n", "\r\n"), True),
+    "empty": ("", False),
+    "no-tags": ("nothing of interest\n", False),
+    "syntax-for": ("{% for x in %}\n", False),
+    "syntax-unclosed-variable": (OK_TEMPLATE + "{{ unclosed\n", False),
+    "syntax-stray-endfor": ("{% endfor %}\n" + OK_TEMPLATE, False),
+    "syntax-unknown-tag": ("{% frobnicate %}\n" + OK_TEMPLATE, False),
+    "syntax-unknown-filter": (OK_TEMPLATE + "{{ 'x'|nosuchfilter }}\n", False),
+    "syntax-unclosed-comment": ("{# never closed\n" + OK_TEMPLATE, False),
+    "not-utf8": (b"\xff\xfe" + OK_TEMPLATE.encode(), False),
+    "latin1": ((u"# caf\xe9\n" + OK_TEMPLATE).encode("latin-1"), False),
+    "nul": (OK_TEMPLATE.encode() + b"\x00\x00\n", True),
+    "undefined-attribute": (OK_TEMPLATE + "{{ nope.attr }}\n", False),
+    "undefined-call": (OK_TEMPLATE + "{{ nope() }}\n", False),
+    "division-by-zero": (OK_TEMPLATE + "{{ 1 // 0 }}\n", False),
+    "type-error": (OK_TEMPLATE + "{{ 1 + 'a' }}\n", False),
+    "missing-include": (OK_TEMPLATE + "{% include 'not-there.jinja2' %}\n", False),
+    "literal-bad-expression": (OK_TEMPLATE + "SPDX-License-Identifier: MIT OR\n", False),
+    "literal-bad-expression-paren": ("SPDX-License-Identifier: (MIT\n" + OK_TEMPLATE, False),
+    "long-line": (OK_TEMPLATE + "x" * (1 << 20) + "\n", True),
+    "deep-nesting": ("{% if true %}" * 400 + "x" + "{% endif %}" * 400 + "\n" + OK_TEMPLATE, None),   # (either answer, but an answer)
+}
+
+
+class TemplateStream(Stream):
+    name = "templates"
+    exhaustive = True
+    rule = ("`reuse annotate --template t` with .reuse/templates/t.jinja2 (and t.commented.jinja2) of %d kinds - usable, empty, six kinds of "
+            "syntax error, not UTF-8, NUL bytes, undefined names, arithmetic and type errors while rendering, a missing include, a literal "
+            "unparseable licence expression, a 1 MB line, 400-fold nesting - on a file without and one with a header, named and through "
+            "--recursive: no traceback, exit status in {0, 1, 2}; a usable template => exit 0 and the header written; otherwise exit != 0 "
+            "and every file byte-identical (oracle only)" % len(TEMPLATE_KINDS))
+
+    def cases(self, tier, rng):
+        for k in sorted(TEMPLATE_KINDS):
+            for commented in (False, True):
+                for target in ("fresh", "with-header", "recursive"):
+                    yield {"kind": k, "commented": commented, "target": target}
+
+    def impl(self, case):
+        content = TEMPLATE_KINDS[case["kind"]][0]
+        if case["commented"]:
+            content = (b"# " + content) if isinstance(content, bytes) else "\n".join(("# " + l) if l and not l.startswith("{%") else l for l in content.split("\n"))
+        with cli.scratch("rv-c16t-") as root:
+            tree = {".reuse/templates/t%s.jinja2" % (".commented" if case["commented"] else ""): content,
+                    "src/fresh.py": "print(1)\n", "src/old.py": HDR + "print(2)\n"}
+            cli.write_tree(root, tree)
+            before = cli.snapshot(root)
+            paths = {"fresh": ["src/fresh.py"], "with-header": ["src/old.py"], "recursive": ["--recursive", "src"]}[case["target"]]
+            code, out, exc = cli.run_cli(["annotate", "-c", "Joe Bloggs", "-l", "0BSD", "--template", "t"] + paths, root)
+            if exc is not None:
+                return "traceback:" + type(exc).__name__
+            after = cli.snapshot(root)
+            changed = sorted(k for k in set(before) | set(after) if before.get(k) != after.get(k))
+            written = all(b"Joe Bloggs" in after[k][1] and b"0BSD" in after[k][1] for k in changed) and bool(changed)
+            return "exit:%s changed:%s written:%s" % (code, ",".join(changed), "1" if written else "0")
+
+    def oracle(self, case, impl_out):
+        if impl_out.startswith(("traceback", "EXC")):
+            return "traceback: `reuse annotate --template` with a %s template ended in an unhandled %s" % (case["kind"], impl_out.split(":", 1)[1])
+        m = re.fullmatch(r"exit:(\d+) changed:(\S*) written:([01])", impl_out)
+        code, changed, written = m.group(1), [c for c in m.group(2).split(",") if c], m.group(3) == "1"
+        if code not in ("0", "1", "2"):
+            return "exit-status: %s" % code
+        usable = TEMPLATE_KINDS[case["kind"]][1]
+        if usable is None:
+            usable = code == "0"
+        if usable:
+            if code != "0" or not written:
+                return "usable-template-refused: exit %s, changed %s" % (code, changed)
+        else:
+            if code == "0":
+                return "broken-template-accepted: exit 0 with a %s template (changed %s)" % (case["kind"], changed)
+            if changed:
+                return "failed-but-wrote: exit %s yet %s changed" % (code, changed)
+        return None
+
+    def nontrivial(self, case, impl_out):
+        return (case["kind"], case["commented"], case["target"], impl_out.split(" ")[0])
 
 
 # --------------------------------------------------------------------------
@@ -1351,7 +1468,7 @@ for _cls in (CliStream, PerFileStream, AnnotateStream, WalkRaceStream, Terminati
 
 PROPERTY = Property(
     pid="C16",
-    streams=[ShapeStream(), TreeStream(), BytesStream(), CliStream(), PerFileStream(), AnnotateStream(), WalkRaceStream(), TerminationStream()],
+    streams=[ShapeStream(), TreeStream(), BytesStream(), CliStream(), PerFileStream(), AnnotateStream(), TemplateStream(), WalkRaceStream(), TerminationStream()],
     assumptions=[
         "tomlkit, python-debian and the UTF-8 codec are oracles of the model: the outcomes 'not TOML' (TOMLKitError), 'not a dep5 file' "
         "(debian Error / ValueError) and 'not UTF-8' (UnicodeDecodeError) are enumerated inputs of Model.tomlFromFile / dep5FromFile; that "
